@@ -602,4 +602,47 @@ theorem xclass_round_trip_example :
         | .error _ => false) = true := by
   decide
 
+/-! ### compact single-field wrappers -/
+
+/-- **C05, compact single-field wrappers**: a class with exactly one field, required, additional properties off,
+    serialized with `compact=True`, is written as the serialized form of that field alone; with compact
+    deserialization on, a document that is not an object (an object would be read as the regular form: a compact
+    wrapper around a Map or a class is ambiguous by design) is read back by the field and handed to the constructor,
+    which gives back exactly the instance -/
+theorem xcompact_round_trip_partial (XO : XOracles) (opts : DeserOpts) (c : ClassOpts) (n : String) (x : XDecl)
+    (v : PyVal) (hreq : c.required = [n]) (hadd : c.addl = false)
+    (hf : xFrag XO (.struct c [(n, x)]) (.inst c.name [(n, v)]) = true) :
+    ∃ j, serializeCompactX XO (.struct c [(n, x)]) (.inst c.name [(n, v)]) = .ok j ∧ isJson j = true
+      ∧ ((∀ kvs, j ≠ .dict kvs) →
+          deserializeCompactX XO opts (.struct c [(n, x)]) j = .ok (.inst c.name [(n, v)])) := by
+  simp only [xFrag, xCanonAttrs, and_true_iff, beq_self_eq_true, if_true, List.isEmpty_nil] at hf
+  obtain ⟨_, _, ⟨hvn, hfx⟩, _⟩ := hf
+  have hvn' : v.isNone = false := by simpa using hvn
+  rcases xround_trip XO opts x v hfx with ⟨j, h1, h2, h3, h4, h5⟩
+  have hjn : j.isNone = false := by rw [h3]; exact hvn'
+  have hcf : xCompactField (.struct c [(n, x)]) = some (n, x) := by simp [xCompactField, hreq, hadd]
+  refine ⟨j, ?_, h2, fun hnd => ?_⟩
+  · simp [serializeCompactX, hcf, lookup, h1]
+  · have hcon : constructX XO (.struct c [(n, x)]) [(n, v)] = .ok (.inst c.name [(n, v)]) := by
+      simp [constructX, vConstruct, bindOk, hreq, hadd, lookup, validateFieldsX, argFor, hvn', h5, extrasOf]
+    have hd : deserX XO opts c.ignoreNone x j = .ok v := by rw [deserX_nonNone XO opts c.ignoreNone x j hjn]; exact h4
+    cases j with
+    | dict kvs => exact absurd rfl (hnd kvs)
+    | _ => simp [deserializeCompactX, hcf, hd, hcon]
+
+/-- non-vacuity, on the shape of a seeded change: a compact wrapper around an Enum serialized by value whose values
+    are strings that READ like JSON ("0", "true"): the compact form is the bare string "0", and it comes back as
+    the member, not as the number 0 -/
+theorem xcompact_round_trip_example :
+    let cls : XDecl := .struct { name := "Status", required := ["value"], addl := false, accepts := ["Status"] }
+      [("value", .enumVal "Code" [("OK", .str "0"), ("WARN", .str "1"), ("YES", .str "true")] false)]
+    xFrag exXO cls (.inst "Status" [("value", .enumv "Code" "OK")]) = true
+    ∧ (match serializeCompactX exXO cls (.inst "Status" [("value", .enumv "Code" "OK")]) with
+        | .ok (.str "0") => true | _ => false) = true
+    ∧ (match deserializeCompactX exXO {} cls (.str "0") with
+        | .ok (.inst "Status" [("value", .enumv "Code" "OK")]) => true | _ => false) = true
+    ∧ (match deserializeCompactX exXO {} cls (.int 0) with
+        | .error .valueErr => true | _ => false) = true := by
+  decide
+
 end Typedpy.C05
